@@ -236,5 +236,24 @@ func TestC17(t *testing.T) {
 	rec := ev.New("C17", "exploration")
 	rec.Rule = "rapid draws members of the three families of the statement: (a) runs of any byte value and length (BinaryTree within its work budget) under drawn lc/lp/pb, DictCap, BufSize, BlockSize, check, all three formats; (b) X||X for pseudo-random X from a drawn seed, 4 <= |X| <= DictCap incl. |X| within 300 bytes of DictCap, single block; (c) pseudo-random data with DictCap >= 64 KiB, xz and LZMA2 without Flush; half the cases hand the input over in Write calls of 1 to 100000 bytes; oracle: out <= n/500 + A, out <= 1.15|X| + A, out <= n + n/500 + A with A = 128 + 64 per block; non-trivial = input >= 4096 bytes; distinct = hash of the case"
 	rec.Assumptions = []string{"BinaryTree runs <= 12000 bytes (quick) / 30000 (thorough)", "xz block sizes are 0 (single block) or >= 64 KiB for families a and c: the statement does not quantify over block sizes, and with tiny blocks the container overhead per block (header 12 + SHA-256 32 + index record) alone exceeds the allowance"}
+	if ev.Thorough() {
+		// X||X with |X| just beyond 16 MiB under a 32 MiB dictionary (presets
+		// -8/-9 of gxz): distances that need more than 24 bits; one case per
+		// match finder, thorough tier only (a minute each)
+		enumerate(t, rec, checkC17, func(try func(caseC17) bool) {
+			for i, m := range []int{0, 1} {
+				if i%rec.Shards != rec.Shard {
+					continue
+				}
+				rec.Class("xx_beyond_16MiB")
+				if !try(caseC17{Family: "xx", Fmt: "xz", Cfg: gen.Cfg{DefProps: true, DictCap: 32 << 20, Matcher: m, CheckSum: 1}, N: 16<<20 + 70000, Seed: uint64(77 + i)}) {
+					return
+				}
+			}
+		})
+		if t.Failed() {
+			return
+		}
+	}
 	drive(t, rec, drawC17, checkC17)
 }
